@@ -161,6 +161,9 @@ def check_C10(ctx):
 
 def check_C09(ctx):
     fw.coq_prove(ctx, "Props/Properties_C09.v")
+    # the history-level statement: rotational order around every single-fan edge in EVERY state of every history of C01's class
+    import checks
+    checks.also_prove_file(ctx, "Props/Properties_C09_history.v")
     _lookup_run(ctx, "C09", 2, ["fans", "lkvalid"],
                 {"QLookup", "AddC", "DelF", "DelC", "DelE", "DelV", "GC", "EnEBU", "EnFBU", "SwapF", "SwapE", "SwapC", "SwapV"}, C09_TAGS,
                 count_quick=30, count_thorough=120, nops_quick=8, nops_thorough=16)
